@@ -34,6 +34,34 @@ pub fn atoms_c01() -> Vec<Node> {
         Empty,
     ]
 }
+/// Leaves used by the seeded random trees only: the remaining assertions, escape classes, a range
+/// class, longer and multi-byte literals, dot-matches-newline.
+pub fn atoms_ext() -> Vec<Node> {
+    vec![
+        Assert(A::NotWordB),
+        Assert(A::WordStart),
+        Assert(A::WordEnd),
+        Assert(A::EndLine),
+        Assert(A::EndBeforeNl),
+        Assert(A::StartLine),
+        Node::class("\\w"),
+        Node::class("\\W"),
+        Node::class("\\s"),
+        Node::class("[a-c]"),
+        Node::class("[^b]"),
+        Node::class("[é\\-]"),
+        Node::lit("ab"),
+        Node::lit("c"),
+        Node::lit("-"),
+        Node::lit("\n"),
+        Node::lit("aé"),
+        Any(true),
+    ]
+}
+/// Quantifier forms used by the seeded random trees in addition to `reps_c01`.
+pub fn reps_ext() -> Vec<(u32, Option<u32>, Mode)> {
+    vec![(2, Some(3), Mode::Greedy), (0, Some(2), Mode::Lazy), (3, Some(3), Mode::Greedy), (1, None, Mode::Poss), (2, Some(2), Mode::Poss), (1, Some(2), Mode::Poss), (2, None, Mode::Lazy), (2, Some(2), Mode::Lazy)]
+}
 pub fn reps_c01() -> Vec<(u32, Option<u32>, Mode)> {
     vec![
         (0, Some(1), Mode::Greedy),
@@ -274,6 +302,11 @@ pub fn g_contexts(base: &[Node]) -> Vec<Node> {
 /// Seeded random tree with roughly `budget` nodes.
 pub fn random_tree(rng: &mut Rng, budget: usize, cond: bool, groups_so_far: &mut usize) -> Node {
     if budget <= 1 {
+        // one leaf in four comes from the wider vocabulary that the exhaustive spaces leave out
+        if rng.chance(1, 4) {
+            let ext = atoms_ext();
+            return ext[rng.below(ext.len() as u64) as usize].clone();
+        }
         let atoms = atoms_c01();
         let k = rng.below(atoms.len() as u64 + 2) as usize;
         return if k < atoms.len() {
@@ -334,7 +367,8 @@ pub fn random_tree(rng: &mut Rng, budget: usize, cond: bool, groups_so_far: &mut
             if !repeatable(&c) {
                 return c;
             }
-            let reps = reps_c01();
+            let mut reps = reps_c01();
+            reps.extend(reps_ext());
             let (lo, hi, m) = reps[rng.below(reps.len() as u64) as usize];
             Repeat(b(c), lo, hi, m)
         }
